@@ -1,6 +1,9 @@
 package main
 
 import (
+	"io"
+	"bytes"
+	"archive/zip"
 	"fmt"
 	"sort"
 	"strconv"
@@ -220,6 +223,9 @@ func (c *Ctx) c16Run(ops []wop, cases *[]mcase) {
 			}
 		}
 		c.Count("history", len(ops) >= 2, fmt.Sprint(ops))
+		if len(ops) >= 3 {
+			c.c16Package(st, ops)
+		}
 		if modelOK {
 			*cases = append(*cases, mcase{Req: "c16.run " + strings.Join(toks, " "), Impl: st.observe() + " consistent=t names=" + st.scopedNames(), Rel: "c16.run", Desc: ops})
 		}
@@ -330,4 +336,75 @@ func replayC16(c *Ctx, f Failure) {
 		}
 	}
 	c.compareBatch(cases)
+}
+
+// the written package after the history: one worksheet part per sheet of the list and none left over from deleted
+// sheets (nor their relationship parts), every worksheet part referenced from the workbook relationships, the
+// package structurally valid, and the reopened workbook shows the same sheet collection
+func (c *Ctx) c16Package(st *c16state, ops []wop) {
+	var buf bytes.Buffer
+	if err := st.f.Write(&buf); err != nil {
+		c.Fail("oracle", "C16_parts", ops, "saving after the history failed: "+err.Error(), "")
+		return
+	}
+	zr, err := zip.NewReader(bytes.NewReader(buf.Bytes()), int64(buf.Len()))
+	if err != nil {
+		c.Fail("oracle", "C16_parts", ops, "the written package is not a zip archive: "+err.Error(), "")
+		return
+	}
+	var sheetParts, relParts []string
+	var wbRels string
+	for _, e := range zr.File {
+		switch {
+		case strings.HasPrefix(e.Name, "xl/worksheets/_rels/"):
+			relParts = append(relParts, e.Name)
+		case strings.HasPrefix(e.Name, "xl/worksheets/") || strings.HasPrefix(e.Name, "xl/chartsheets/sheet"):
+			sheetParts = append(sheetParts, e.Name)
+		case e.Name == "xl/_rels/workbook.xml.rels":
+			if rc, err := e.Open(); err == nil {
+				b, _ := io.ReadAll(rc)
+				rc.Close()
+				wbRels = string(b)
+			}
+		}
+	}
+	list := st.f.GetSheetList()
+	if len(sheetParts) != len(list) {
+		c.Fail("oracle", "C16_parts", ops, fmt.Sprintf("the written package holds %d worksheet parts %v for the %d sheets %q: a deleted sheet left its part behind, or a sheet has none", len(sheetParts), sheetParts, len(list), list), "")
+		return
+	}
+	for _, p := range sheetParts {
+		if !strings.Contains(wbRels, strings.TrimPrefix(p, "xl/")) {
+			c.Fail("oracle", "C16_parts", ops, fmt.Sprintf("worksheet part %s is not the target of a workbook relationship", p), "")
+			return
+		}
+	}
+	for _, rp := range relParts {
+		owner := "xl/worksheets/" + strings.TrimSuffix(strings.TrimPrefix(rp, "xl/worksheets/_rels/"), ".rels")
+		found := false
+		for _, p := range sheetParts {
+			if p == owner {
+				found = true
+			}
+		}
+		if !found {
+			c.Fail("oracle", "C16_parts", ops, fmt.Sprintf("relationship part %s belongs to no worksheet part of the package", rp), "")
+			return
+		}
+	}
+	for i, p := range pkgCheck(buf.Bytes()) {
+		if i < 2 {
+			c.Fail("oracle", "C16_parts", ops, "the package written after the history is not valid: "+p, "")
+		}
+	}
+	g, err := excelize.OpenReader(bytes.NewReader(buf.Bytes()))
+	if err != nil {
+		c.Fail("oracle", "C16_parts", ops, "the written package does not reopen: "+err.Error(), "")
+		return
+	}
+	defer g.Close()
+	st2 := &c16state{f: g, scoped: st.scoped}
+	if a, b := st.observe(), st2.observe(); a != b {
+		c.Fail("oracle", "C16_parts", ops, "sheet collection after save+open differs: "+firstDiff(a, b), "")
+	}
 }
